@@ -7,6 +7,9 @@
 (*               other - in the other fields, str_values - of @string blocks      *)
 (*   raised    whether the call raised      changed   input projection differs    *)
 (*   shared    number of mutable objects reachable from both input and output     *)
+(*   bad_template  (write_string only) the format's warning template is one that  *)
+(*             str.format rejects: the call may raise, but must leave the format  *)
+(*             and the library as they were                                        *)
 (* The accepting action for a copy-mode application is Middleware!BlockCopy /     *)
 (* LibCopy / Sort: nothing shared, input frozen; an exception is admitted only    *)
 (* where the value TYPE-STATE of the pipeline makes the middleware inapplicable   *)
@@ -30,10 +33,10 @@ CopyMode(e) == ~e.inplace \/ e.mw \in {"SortBlocksByTypeAndKeyMiddleware", "writ
 Bad(e) ==
     IF ~CopyMode(e) THEN ""                                   \* nothing is demanded of in-place mode
     ELSE IF e.changed THEN "input_changed"
-    ELSE IF e.raised THEN (IF Inapplicable(e.mw, e.types) THEN "" ELSE "raised")
+    ELSE IF e.mw = "write_string" /\ ~e.fmt_unchanged THEN "format_changed"          \* also when the call raises
+    ELSE IF e.raised THEN (IF Inapplicable(e.mw, e.types) \/ e.bad_template THEN "" ELSE "raised")
     ELSE IF e.shared > 0 THEN "aliasing"
     ELSE IF e.mw = "write_string" /\ ~e.same_text_twice THEN "write_twice_differs"
-    ELSE IF e.mw = "write_string" /\ ~e.fmt_unchanged THEN "format_changed"
     ELSE ""
 Next ==
     \/ /\ tid <= N
